@@ -41,6 +41,7 @@ def run(chk):
         e7.rule_setz_table(dz, chk, z)
         e7.rule_zcb_rebound(dz, chk, z)
         e7.rule_out_point_fresh(dz, chk, z)
+        e7.rule_no_whole_then_part(dz, chk, z)
         if e7.rule_z_carry(dz, chk, z) < 3:
             raise AnalysisBroken("Z.carry: fewer than 3 vertex constructions from one source vertex in the conversion layer (%s)" % z)
     n = len(pairs)
